@@ -8,7 +8,7 @@ PARAMS_NAME = "ParamsC07"
 HEADER = "From Hy Require Import lib.Harness model.C07_UDPSessions corr.C07_Corr.\nFrom Coq Require Import NArith.\nLocal Open Scope N_scope.\n"
 RULE = ("seeded generator: histories of 10-70 operations on udpSessionManager.Run inside a testing/synctest bubble (fake clock): client "
         "datagrams (complete / never-completed fragment) over <= 6 session ids, scripted reads and read errors on the sessions' sockets, "
-        "injected dial / hook / SendMessage / WriteTo failures, sleeps chosen around the idle timeout and the 1 s sweep (timeout-1, timeout, "
+        "injected dial / hook / SendMessage / WriteTo failures, a slow event logger (keeps a closed entry in the table for 10 ms), sleeps chosen around the idle timeout and the 1 s sweep (timeout-1, timeout, "
         "timeout+1, 999/1000/1001 ms ...), bursts of operations issued without waiting for quiescence (real interleavings of receive loop, "
         "reply loops and sweeper), final connection loss. The boundary log (fake udpIO / UDPConn / logger calls with fake-clock times) is "
         "replayed against the Coq LTS (nondeterministic-automaton simulation with tau-closure) and must end in a terminal state with an "
@@ -53,7 +53,9 @@ def gen_history(rng, idx):
             ops.append([2, rng.choice(sleeps)])
         elif faulty:
             y = rng.random()
-            if y < 0.3:
+            if y < 0.12:
+                ops.append([9, rng.choice([1, 2])])
+            elif y < 0.3:
                 ops.append([4, 1])
             elif y < 0.45:
                 ops.append([5, 1])
@@ -82,6 +84,12 @@ def gen(rng, tier):
         {"timeout": 1500, "ops": [[4, 1], [0, 3, 1], [3], [5, 1], [0, 3, 1], [3], [0, 3, 1], [3], [2, 2600], [8]]},
         # fragment-only session expires without ever having a socket
         {"timeout": 1000, "ops": [[0, 9, 0], [3], [2, 2100], [0, 9, 0], [0, 9, 1], [3], [8]]},
+        # a slow logger.Close keeps a closed entry in the table: a datagram for it must not dial (fragment-only entry) ...
+        {"timeout": 1000, "ops": [[0, 9, 0], [3], [9, 1], [2, 2005], [0, 9, 1], [3], [2, 100], [0, 9, 1], [1, 9, 1], [3], [8]]},
+        # ... and is written to the already closed socket when the entry had one
+        {"timeout": 1000, "ops": [[0, 9, 1], [3], [9, 1], [2, 2005], [0, 9, 1], [3], [2, 100], [0, 9, 1], [1, 9, 1], [3], [8]]},
+        # same with the reply loop as the closer (read error), slow logger
+        {"timeout": 3000, "ops": [[0, 4, 1], [3], [9, 1], [1, 4, 0], [2, 5], [0, 4, 1], [0, 4, 0], [3], [2, 20], [0, 4, 1], [3], [8]]},
         # connection lost with live sessions and pending replies, everything at once
         {"timeout": 3000, "ops": [[0, 1, 1], [0, 2, 1], [0, 3, 1], [1, 1, 1], [1, 2, 1], [6, 1], [1, 3, 1], [8]]},
     ]
@@ -186,8 +194,35 @@ def search(ctx, disagreeing):
 
 
 def run(ctx):
+    import random
     import sys
-    return common.run_case_check(ctx, sys.modules[__name__])
+    extra = []
+    race_cov = None
+    if ctx.tier == "thorough":
+        # the same histories under the race detector (implementation only; verdicts must stay ok)
+        cases = gen(random.Random(ctx.seed + 1), "quick") + gen(random.Random(ctx.seed + 2), "quick")
+        ok, outs, _, log = common.run_go_cases(ctx, GO, cases, tag="race", race=True, timeout=1500)
+        if not ok:
+            extra.append({"what": "C07 harness under -race failed (data race or crash): %s" % log.strip()[-600:],
+                          "replay": {"broken": "go test -race", "log": log[-4000:]}, "found_input": False, "fingerprint": None})
+        for c, o in zip(cases, outs):
+            if o.get("ok") is False:
+                extra.append({"what": "history (-race): %s" % o.get("why"), "replay": {"case": c, "impl": {k: v for k, v in o.items() if k != "log"}},
+                              "fingerprint": None, "found_input": True})
+        race_cov = {"histories": len(cases), "ok": ok}
+        ctx.say("race run: %d histories, ok=%s" % (len(cases), ok))
+    orig = common.finish
+
+    def fin(ctx_, pinfo, cov, violations, assumptions, **kw):
+        cov = dict(cov)
+        if race_cov:
+            cov["race_detector_run"] = race_cov
+        return orig(ctx_, pinfo, cov, list(violations) + extra, assumptions, **kw)
+    common.finish = fin
+    try:
+        return common.run_case_check(ctx, sys.modules[__name__])
+    finally:
+        common.finish = orig
 
 
 def replay(ctx, path):
